@@ -6,14 +6,14 @@ MANIFEST = {
             "C19_print_parse_norm (for any wf tree the parser returns the tree with the printer's parentheses added and nested parentheses collapsed), C19_blank_sound (no two adjacent printed "
             "tokens combine), C19_nested_parens_collapse (witness that the full statement is false: ((a)) loses a ParenExpr; replayed on format.Source). Statements, declarations, comments, "
             "import sorting, line breaks and class files are not modelled: for them the property is only searched: real format.Source on every corpus file of the tree (*.xgo *.gox *.gop *.go ...), "
-            "generated XGo programs (normal/class, perturbed layout) and printed AST mutants; output re-parsed and compared structurally modulo positions, comments and import order.",
+            "generated XGo programs (template generator + a grammar-directed generator over every statement/declaration kind written by the harness's own pretty-printer, normal/class) and printed AST mutants; output re-parsed and compared structurally modulo positions, comments and import order.",
     "note": "trusted: Lean kernel; hand-written model M3 tied by the differential run (real printer text, scanner tokens and ParseExpr tree on thousands of single-line expressions taken from the "
             "corpus) and by the translator target prec; the AST comparison (reflection dump that drops token.Pos, comments, scopes; sorts import specs) is part of the harness. "
             "Redundant-parentheses removal inherited from gofmt is recorded as known findings, not hidden.",
     "technique": "Lean 4 proof (structural induction with precedence invariants) + translator tie (prec) + differential correspondence on corpus expressions + bounded search with the real format.Source",
 }
 
-RULE = ("every source file of the tree under test (all XGo/class files, a seed-dependent third of the .go files in quick, all in thorough), 10 regression inputs, N generated programs "
+RULE = ("every source file of the tree under test (all XGo/class files, a seed-dependent third of the .go files in quick, all in thorough), 10 regression inputs, N template programs + N grammar-directed programs (harness/exprx/gram.go: every ast.Stmt/ast.Decl kind, labelled statements incl. empty ones in every position, `;`-separated and empty statements, goto/fallthrough, redundant parentheses to depth 3 in every expression/type position, import blocks with named/dot/blank imports, duplicate paths under different names, raw-string and escaped path spellings, comments and groups; text written by the generator itself with random blanks / line breaks / comments, not by the printer under test) "
         "(templates over all XGo statement kinds with synthesized expressions, 60% with perturbed blanks/line breaks/comments), N/2 AST mutants (operator change/swap, paren add/remove, unary/errwrap wrap, "
         "combine) printed and fed back as sources; up to 40 distinct single-line M3 expressions per corpus file as model cases; non-trivial = valid source longer than 40 bytes / expression with more than one node")
 
